@@ -22,6 +22,11 @@ UmGen/HostileCfg.lean (namespace Um.Gen.Hostile):
     `Vec::with_capacity(arr.len().saturating_sub(2))` (×2, bounded by the real element count) and
     `vec![false; map_len]` (RangeMap, see `rangeMapBounded`); any other `with_capacity` / `reserve` / `vec![_; n]`
     (e.g. one sized by a client-declared count such as `peer_num`) is refused;
+  * `hashTagEndAfterBegin` — `get_hash_tag` looks for the closing brace *after* the opening one (`key.get(begin + 1..)`
+    then `position('}')`), so the final `expect` is unreachable; `false` for the shape that takes the first `}` of the
+    whole key (`memchr(b'}', key)`) and slices `key.get(begin + 1..end).expect(..)`;
+  * `configSetFields` — the arms of `ServerProxyConfig::set_value`: (field, "i64" | "u64" | "readonly"), in source order;
+  * `rateLimiterClamped` — `SlowLogRateLimiter::check_current_enabled` clamps the rate with `max(1, rate)` before `%`;
   * `overflowChecks` — `[profile.release] overflow-checks` of /repo/Cargo.toml (absent ⇒ `false`:
     `3 + key_num` wraps);
   * constants: `CLUSTER_NAME_MAX_LENGTH`, `MAX_ELEMENT_LENGTH`, `LOG_ELEMENT_NUMBER`,
@@ -204,6 +209,46 @@ def gen_hostilecfg():
                                f"(a capacity taken from a client-declared count must not be reserved before the items are read)")
     out.append("/-- no UMCTL parser reserves memory proportional to a client-declared count (pinned shapes) -/")
     out.append("def umctlCountPrealloc : Bool := false")
+    # --- get_hash_tag ---------------------------------------------------------------------------------------------
+    p = "src/common/utils.rs"
+    ht = _sq(fn_body(src(p), "get_hash_tag", p))
+    scoped = ("key.iter().position(|x| *x as char == '{')" in ht and ".get(begin + 1..)" in ht
+              and "t.iter().position(|x| *x as char == '}')" in ht and "if end_offset == 0 { return key; }" in ht
+              and ".get(begin + 1..begin + 1 + end_offset) .expect(" in ht)
+    whole = ("memchr(b'{', key)" in ht and "memchr(b'}', key)" in ht and "if end == begin + 1 { return key; }" in ht
+             and "key.get(begin + 1..end).expect(" in ht)
+    if scoped == whole:
+        raise ExtractError(f"{p}: get_hash_tag has an unknown shape")
+    out.append(f"/-- `get_hash_tag` searches the closing brace after the opening one — {p} -/")
+    out.append(f"def hashTagEndAfterBegin : Bool := {_b(scoped)}")
+    # --- CONFIG SET fields and the slow-log rate limiter --------------------------------------------------------------
+    p = "src/proxy/service.rs"
+    sv = fn_body(src(p), "set_value", p)
+    if "match field.to_lowercase().as_ref() {" not in _sq(sv):
+        raise ExtractError(f"{p}: set_value: match on the lower-cased field not found")
+    fields = []
+    for name, body in re.findall(r'"(\w+)"\s*=>\s*(Err\(ConfigError::ReadonlyField\)|\{.*?\n            \})', sv, flags=re.S):
+        if body.startswith("Err"):
+            fields.append((name, "readonly"))
+        else:
+            m = re.search(r"value\s*\.parse::<(i64|u64)>\(\)\s*\.map_err\(\|_\| ConfigError::InvalidValue\)\?;", body)
+            if not m or "Ok(())" not in body:
+                raise ExtractError(f"{p}: set_value arm {name} has an unknown shape")
+            fields.append((name, m.group(1)))
+    if len(fields) != len(re.findall(r'"\w+"\s*=>', sv)) or "_ => Err(ConfigError::FieldNotFound)" not in _sq(sv):
+        raise ExtractError(f"{p}: set_value arms not recognised")
+    out.append(f"/-- arms of `ServerProxyConfig::set_value` — {p} -/")
+    out.append("def configSetFields : List (String × String) := ["
+               + ", ".join(f"({lean_str(a)}, {lean_str(b)})" for a, b in fields) + "]")
+    p = "src/proxy/slowlog.rs"
+    rl = _sq(fn_body(src(p), "check_current_enabled", p))
+    if "self.count.fetch_add(1, atomic::Ordering::Relaxed) % slowlog_sample_rate" not in rl:
+        raise ExtractError(f"{p}: check_current_enabled has an unknown shape")
+    clamped = "let slowlog_sample_rate = max(1, slowlog_sample_rate);" in rl
+    if not clamped and "max(" in rl:
+        raise ExtractError(f"{p}: check_current_enabled: clamp has an unknown shape")
+    out.append(f"/-- the rate limiter clamps the sample rate to at least 1 before `%` — {p} -/")
+    out.append(f"def rateLimiterClamped : Bool := {_b(clamped)}")
     # --- constants ----------------------------------------------------------------------------------
     p = "src/common/cluster.rs"
     out.append(f"def CLUSTER_NAME_MAX_LENGTH : Nat := {const_num(src(p), 'CLUSTER_NAME_MAX_LENGTH', p)}  -- {p}")
